@@ -225,6 +225,11 @@ class OptimizationAbstract(ABC, Generic[T]):
 
         self._task = task
 
+        # per-run bookkeeping: a reused instance must start from scratch
+        self._current_cycle = 1
+        self._errors = []
+        self._error_diffs = []
+
         self.before_initialization()
 
         self._init_population()
